@@ -182,8 +182,12 @@ class Array(
                     self._serialize = list
                     return list(value)
                 if isinstance(items, ClassReference):
-                    serializer = items._ty.serialize
-                    self._serialize = lambda value: [serializer(x) for x in value]
+                    # look `serialize` up at every call: the item class (or its base) may get its
+                    # generated serializer later, or be given another one by create_serializer
+                    item_class = items._ty
+                    self._serialize = lambda value: [
+                        item_class.serialize(x) for x in value
+                    ]
                     return self._serialize(value)
                 serialize = items.serialize
                 self._serialize = lambda value: [serialize(x) for x in value]
